@@ -240,9 +240,7 @@ Definition read_values_mt_nonempty (debug : bool) (tpes : list sig_enc) (lookup 
   match encoders with
   | [] => Panic                                                     (* encoder_iter.next().unwrap() *)
   | first :: others =>
-    do e <- (fix go (acc : encoder) (l : list encoder) : outcome encoder :=
-               match l with [] => Ok acc | o :: r => do a <- append lz_compress acc o; go a r end)
-            first others;
+    do e <- append_all lz_compress first others;
     enc_finish lz_compress e
   end.
 
